@@ -271,6 +271,25 @@ pub fn run(ctx: &Ctx) {
                     }
                 }
             }
+            // many seals across the pair: a shared secret / coordinate with a leading zero byte (1 in 256) is
+            // where two implementations of one scheme part ways
+            let many = if ctx.thorough() { 8000 } else if x == "v3" { 1000 } else { 2000 };
+            if let Some((sk, pk, _)) = keys.recipients.first() {
+                for _ in 0..many {
+                    let key = g.bytes(32);
+                    rep.evaluations += 1;
+                    if let Ok(w) = (p.pke_seal)(pk, &key) {
+                        match (q.pke_unseal)(sk, &w) {
+                            Ok(k2) if k2 == key => {}
+                            other => {
+                                rep.violation(&format!("c07.siblings.{x}.pke"), format!("{} does not unseal {}'s sealed key: {:?}", q.name, p.name, other.map(|z| z.len())), json!({"text": w, "sk": hex::encode(sk)}));
+                                break;
+                            }
+                        }
+                    }
+                }
+                rep.count_n(&format!("siblings.{}->{}.pke.seals", p.name, q.name), many as u64);
+            }
             for (sk, pk, _) in keys.recipients.iter().take(3) {
                 let key = g.bytes(32);
                 rep.evaluations += 1;
